@@ -55,7 +55,7 @@ class UNetConfig:
 
 
 @define
-class UNetLargeRFConfig:
+class UNetLargeRFConfig(UNetConfig):
     """UNet config for backbone with large receptive field.
 
     Attributes:
@@ -98,7 +98,7 @@ class UNetLargeRFConfig:
 
 
 @define
-class UNetMediumRFConfig:
+class UNetMediumRFConfig(UNetConfig):
     """UNet config for backbone with medium receptive field.
 
     Attributes:
@@ -189,7 +189,7 @@ class ConvNextConfig:
 
 
 @define
-class ConvNextSmallConfig:
+class ConvNextSmallConfig(ConvNextConfig):
     """Convnext configuration for backbone.
 
     Attributes:
@@ -237,7 +237,7 @@ class ConvNextSmallConfig:
 
 
 @define
-class ConvNextBaseConfig:
+class ConvNextBaseConfig(ConvNextConfig):
     """Convnext configuration for backbone.
 
     Attributes:
@@ -285,7 +285,7 @@ class ConvNextBaseConfig:
 
 
 @define
-class ConvNextLargeConfig:
+class ConvNextLargeConfig(ConvNextConfig):
     """Convnext configuration for backbone.
 
     Attributes:
@@ -398,7 +398,7 @@ class SwinTConfig:
 
 
 @define
-class SwinTSmallConfig:
+class SwinTSmallConfig(SwinTConfig):
     """SwinT configuration (small) for backbone.
 
     Attributes:
@@ -463,7 +463,7 @@ class SwinTSmallConfig:
 
 
 @define
-class SwinTBaseConfig:
+class SwinTBaseConfig(SwinTConfig):
     """SwinT configuration for backbone.
 
     Attributes:
